@@ -102,6 +102,27 @@ pub trait Family {
     fn gen(rng: &mut Rng, idx: usize) -> String;
     /// Run the implementation on a case line.
     fn run(case: &str) -> Outcome;
+    /// Does this case run on the real-time multi-thread runtime (its verdict may then depend on wall-clock
+    /// deadlines)?  Only such cases are re-run when the machine is overloaded, see `main_loop`.
+    fn realtime(_case: &str) -> bool {
+        false
+    }
+}
+
+/// 1-minute load average above 1.5 x the number of CPUs: wall-clock deadlines of real-time scenarios are not
+/// meaningful then.
+pub fn overloaded() -> bool {
+    let cpus = std::thread::available_parallelism().map(|n| n.get()).unwrap_or(1) as f64;
+    std::fs::read_to_string("/proc/loadavg")
+        .ok()
+        .and_then(|s| s.split_whitespace().next().and_then(|x| x.parse::<f64>().ok()))
+        .map_or(false, |l| l > 1.5 * cpus)
+}
+
+/// Factor by which wall-clock limits are stretched in a re-run on an overloaded machine (env VERIF_SLOW,
+/// inherited by the child process of a scenario)
+pub fn slow_factor() -> u32 {
+    std::env::var("VERIF_SLOW").ok().and_then(|v| v.parse().ok()).unwrap_or(1).max(1)
 }
 
 pub struct Args {
@@ -161,14 +182,33 @@ pub fn main_loop<F: Family>() {
     let mut fi = std::io::BufWriter::new(std::fs::File::create(format!("{}/impl.txt", args.out)).unwrap());
     let mut fo = std::io::BufWriter::new(std::fs::File::create(format!("{}/oracle.txt", args.out)).unwrap());
     for case in &cases {
-        let r = catch_unwind(AssertUnwindSafe(|| F::run(case)));
-        let out = match r {
+        let run1 = |case: &str| match catch_unwind(AssertUnwindSafe(|| F::run(case))) {
             Ok(o) => o,
             Err(e) => Outcome {
                 impl_line: "PANIC".into(),
                 oracle: Oracle::Fail(format!("harness-level panic: {}", panic_message(e).replace('\n', " "))),
             },
         };
+        let mut out = run1(case);
+        // A real-time scenario that fails while the machine is overloaded (load average above 1.5 x CPUs) is run
+        // once more with its wall-clock limits stretched: a genuine violation reproduces, a missed deadline does
+        // not.  On a machine that is not overloaded nothing is ever re-run.
+        if matches!(out.oracle, Oracle::Fail(_)) && F::realtime(case) && overloaded() {
+            stat("realtime_rerun_under_overload");
+            std::env::set_var("VERIF_SLOW", "5");
+            let again = run1(case);
+            std::env::remove_var("VERIF_SLOW");
+            if let Oracle::Fail(m2) = &again.oracle {
+                let m1 = match &out.oracle {
+                    Oracle::Fail(m) => m.clone(),
+                    _ => String::new(),
+                };
+                out = Outcome { impl_line: again.impl_line.clone(), oracle: Oracle::Fail(format!("{} [again on re-run; first run: {}]", m2, m1)) };
+            } else {
+                stat("realtime_rerun_passed");
+                out = again;
+            }
+        }
         writeln!(fc, "{}", case).unwrap();
         writeln!(fi, "{}", out.impl_line.replace('\n', " ")).unwrap();
         match out.oracle {
